@@ -171,6 +171,12 @@ func (b *Buffer) WriteByte(s byte) error {
 func (b *Buffer) WriteRune(s rune) error {
 	b.startWrite()
 	l := utf8.RuneLen(s)
+	if l < 0 {
+		// Not a valid rune (surrogate half, negative or too large):
+		// write the replacement character, like utf8.EncodeRune does.
+		s = utf8.RuneError
+		l = utf8.RuneLen(s)
+	}
 	m, ok := b.tryGrowByReslice(l)
 	if !ok {
 		m = b.grow(l)
